@@ -338,6 +338,39 @@ func TestLongLivedBasic(t *testing.T) {
 	rec.Exhaustive("one BasicSampler instance per N in {2,3,7,10}, 2^24+70 consecutive calls each")
 }
 
+// TestDeepChains: BurstSamplers handing over to BurstSamplers, k deep (rate limits stacked per tenant, per
+// route, per process ...): once the first j have spent their burst, the event is decided by number j+1; after
+// all k, by the last NextSampler (or rejected when there is none).
+func TestDeepChains(t *testing.T) {
+	var n int64
+	for _, k := range []int{1, 2, 7, 8, 9, 10, 16, 17, 33, 64, 300} {
+		for _, burst := range []uint32{1, 3} {
+			for _, last := range []*Spec{nil, {Kind: "basic", N: 1}, {Kind: "basic", N: 2}} {
+				spec := last
+				for i := 0; i < k; i++ {
+					spec = &Spec{Kind: "burst", Burst: burst, Period: 1000, Next: spec}
+				}
+				c := &Case{Spec: spec}
+				for i := 0; i < k*int(burst)+6; i++ {
+					c.Calls = append(c.Calls, Call{Lvl: 1, Now: 5 + int64(i%3)})
+				}
+				// and a second window for all of them
+				for i := 0; i < k*int(burst)+3; i++ {
+					c.Calls = append(c.Calls, Call{Lvl: 2, Now: 2000})
+				}
+				msg, _ := runBare(c)
+				n++
+				b, _ := json.Marshal(map[string]interface{}{"chain_depth": k, "burst": burst, "last": last})
+				rec.Case(b, true, "deep-chain")
+				if msg != "" {
+					fail(t, "deep-chain", c, fmt.Sprintf("chain of %d BurstSamplers (Burst %d): %s", k, burst, msg))
+				}
+			}
+		}
+	}
+	rec.Exhaustive("chains of 1..300 BurstSamplers x Burst {1,3} x last NextSampler {none, Basic 1, Basic 2}: every burst spent in turn, in two windows")
+}
+
 func TestExhaustiveBasic(t *testing.T) {
 	var n int64
 	for N := uint32(0); N <= 9; N++ {
